@@ -676,7 +676,7 @@ fn main() {
         reg.add(zipora_spec("ZiporaHashMap[default]/FixedSip/prefill40", dflt, FixedSip, false, p(&[0, 1, 100], (10..50).collect(), 3, 4)));
 
         // ---- the same storage without the iter() observer: histories with tombstones
-        reg.add(zipora_spec("ZiporaHashMap[default,noiter]/Const(7)", dflt, ConstBuild(7), true, p(k2, vec![], 5, 8)));
+        reg.add(zipora_spec("ZiporaHashMap[default,noiter]/Const(7)", dflt, ConstBuild(7), true, p(k2, vec![], 5, 7)));
         // hashes 5 and 21: same home slot (5) in a 16-slot table, different stored hash values
         reg.add(zipora_spec("ZiporaHashMap[default,noiter]/Table(5,21)", dflt, TableBuild(vec![5, 21]), true, p(k2, vec![], 5, 7)));
         // a full 16-slot table (prefill 14 + 2): removal/re-insertion at 100% load and across the resize to 32
